@@ -57,3 +57,25 @@ open MdIt MdIt.Pipeline
 #print axioms tr_shift
 #print axioms doc_final_newline_sp_of_inline
 #print axioms doc_crlf_sp_of_inline
+
+#check @doc_final_newline_invariant_sp_all
+#check @doc_crlf_invariant_sp_all
+#check @doc_starts_on_bytes_all
+#check @C10SP.parseInline_exactT
+#check @doc_placeholder_segsT
+#check @tr_shiftT
+#check @tr_onByteT
+#check @mapT_shift
+#check @doc_final_newline_sp_of_inlineT
+#check @doc_crlf_sp_of_inlineT
+
+#print axioms doc_final_newline_invariant_sp_all
+#print axioms doc_crlf_invariant_sp_all
+#print axioms doc_starts_on_bytes_all
+#print axioms C10SP.parseInline_exactT
+#print axioms doc_placeholder_segsT
+#print axioms tr_shiftT
+#print axioms tr_onByteT
+#print axioms mapT_shift
+#print axioms doc_final_newline_sp_of_inlineT
+#print axioms doc_crlf_sp_of_inlineT
